@@ -1,9 +1,12 @@
 (* Detection floors (C04) and totality (C19) of the analysis model. *)
 From Coq Require Import List String Ascii ZArith Bool Arith Lia.
-From Verif Require Import Base Ops Interp Unparse Severity SeverityProofs AnalysisTable MLTable Analysis.
+From Verif Require Import Base Ops Interp Unparse Severity SeverityProofs AnalysisTable MLTable ReportTable Analysis.
 Import ListNotations.
 Local Open Scope nat_scope.
 Local Open Scope list_scope.
+
+(* a finding of the given severity name and nothing else *)
+Definition sevf (name : string) : finding := mkFinding "" name "" ("", 0) None TNone.
 
 Section Proofs.
 Variable crepr : const -> string.
@@ -34,14 +37,14 @@ Qed.
 
 (* the severity names the analyses use, on the regenerated table *)
 Lemma rank_names :
-  doc_rank (finding_sev (mkFinding "" "SUSPICIOUS" "")) = 2 /\
-  doc_rank (finding_sev (mkFinding "" "LIKELY_UNSAFE" "")) = 3 /\
-  doc_rank (finding_sev (mkFinding "" "LIKELY_OVERTLY_MALICIOUS" "")) = 4 /\
-  doc_rank (finding_sev (mkFinding "" "OVERTLY_MALICIOUS" "")) = 5.
+  doc_rank (finding_sev (sevf "SUSPICIOUS")) = 2 /\
+  doc_rank (finding_sev (sevf "LIKELY_UNSAFE")) = 3 /\
+  doc_rank (finding_sev (sevf "LIKELY_OVERTLY_MALICIOUS")) = 4 /\
+  doc_rank (finding_sev (sevf "OVERTLY_MALICIOUS")) = 5.
 Proof. vm_compute. auto. Qed.
 
 Lemma rank_of_name f name :
-  f_sev f = name -> doc_rank (finding_sev f) = doc_rank (finding_sev (mkFinding "" name "")).
+  f_sev f = name -> doc_rank (finding_sev f) = doc_rank (finding_sev (sevf name)).
 Proof. intros <-. reflexivity. Qed.
 
 (* text of a call whose callee is a plain name starts with "name(" -- also after shortening *)
@@ -94,10 +97,11 @@ Proof.
   destruct Hin as [->|Hin].
   - cbn [fst snd].
     match goal with |- context[flat_map ?g (dotted_prefixes m)] => set (G := g) end.
-    assert (In (mkFinding "UnsafeImportsML" "LIKELY_OVERTLY_MALICIOUS" (shorten (imp_text (m, n))))
-               (flat_map G (dotted_prefixes m))) as HI.
-    { apply in_flat_map. exists p. split; [exact Hp|]. subst G. cbv beta. rewrite Hm. left; reflexivity. }
-    eexists. split; [apply in_or_app; left; exact HI | reflexivity].
+    assert (exists f, In f (flat_map G (dotted_prefixes m)) /\ f_sev f = "LIKELY_OVERTLY_MALICIOUS"%string) as (f0 & HI & HS).
+    { eexists. split.
+      - apply in_flat_map. exists p. split; [exact Hp|]. subst G. cbv beta. rewrite Hm. left; reflexivity.
+      - reflexivity. }
+    exists f0. split; [apply in_or_app; left; exact HI | exact HS].
   - destruct (IH (add (shorten (imp_text mn)) d) m n p Hin Hp Hm) as (f & Hf & Hs).
     rewrite E in Hf. cbn in Hf. exists f. split; [|exact Hs].
     cbn [fst]. apply in_or_app; right. apply in_or_app; right. exact Hf.
